@@ -291,6 +291,22 @@ def sublattices(tier, seed):
                 cases,
             )
 
+        # S2z zero / negative range bounds (falsy values are values: a bound of 0 is a condition)
+        zd = [None, 0, 0.0, -1.5]
+        zs = [None, 0, -1]
+        zo = [{}, {'country': sp['country'][0]}, {'service_type': fx['service_type'][2]}]
+        cases = []
+        for vals in itertools.product(zd, zd, zs, zs):
+            f = {k: v for k, v in zip(num_keys[:4], vals) if v is not None}
+            for other in zo:
+                for k, lim in kinds3:
+                    cases.append(_case(db, k, {**f, **other}, limit=lim))
+        add(
+            f'{db}: zero/negative distance and seat bounds x other condition x kind',
+            {'min_distance': zd, 'max_distance': zd, 'min_seat_capacity': zs, 'max_seat_capacity': zs, 'other': zo, 'kind': kinds3},
+            cases,
+        )
+
         # S3 every_nth x dates x filter
         nths = [None, 1, 2, 3, 7, 0, -1] + ([5, 30] if thorough else [])
         ff = filt6 if thorough else lite
